@@ -1011,8 +1011,13 @@ class Exec:
         k.record('op:mc', f"{op['iterations']} iterations W={op['W']}")
         try:
             with self.live():
-                GeophiresMonteCarloClient().get_monte_carlo_result(
-                    MonteCarloRequest(SimulationProgram.HIP_RA_X, Path(d, 'base.txt'), Path(d, 'settings.txt'), Path(d, 'MC_Result.txt')))
+                if op['iterations'] % 2:
+                    # no output file given: the request creates (and later removes) its own temporary directory
+                    req_ = MonteCarloRequest(SimulationProgram.HIP_RA_X, Path(d, 'base.txt'), Path(d, 'settings.txt'))
+                else:
+                    req_ = MonteCarloRequest(SimulationProgram.HIP_RA_X, Path(d, 'base.txt'), Path(d, 'settings.txt'), Path(d, 'MC_Result.txt'))
+                GeophiresMonteCarloClient().get_monte_carlo_result(req_)
+                del req_
             self.probe('mc_between_runs')
         except BaseException as e:  # noqa: BLE001
             if isinstance(e, (K.SimFatal, K.ProcKilled)):
